@@ -47,6 +47,8 @@ package server
 //@   modifies pc.Conn.consumed, p[:], pc.buffer
 //
 // compareAddr is a function of its two address values (addresses are not mutated after creation).
+// Two specific addresses match exactly when net.IP.Equal says so (ipeq: the 4-byte and the 16-byte form
+// of an IPv4 address are equal), an unset IP on either side matches any.
 //@ uf cmpaddr(net.Addr, net.Addr) bool
 //@ func compareAddr
 //@   check safety
@@ -56,6 +58,8 @@ package server
 //@   ensures [kind] result ==> (typeis(addr1, *net.TCPAddr) && typeis(addr2, *net.TCPAddr)) || (typeis(addr1, *net.UDPAddr) && typeis(addr2, *net.UDPAddr))
 //@   ensures [wild-tcp] typeis(addr1, *net.TCPAddr) && typeis(addr2, *net.TCPAddr) && unbox(addr1, *net.TCPAddr).Port == unbox(addr2, *net.TCPAddr).Port && (unbox(addr1, *net.TCPAddr).IP == nil || unbox(addr2, *net.TCPAddr).IP == nil) ==> result
 //@   ensures [wild-udp] typeis(addr1, *net.UDPAddr) && typeis(addr2, *net.UDPAddr) && unbox(addr1, *net.UDPAddr).Port == unbox(addr2, *net.UDPAddr).Port && (unbox(addr1, *net.UDPAddr).IP == nil || unbox(addr2, *net.UDPAddr).IP == nil) ==> result
+//@   ensures [specific-tcp] typeis(addr1, *net.TCPAddr) && typeis(addr2, *net.TCPAddr) && unbox(addr1, *net.TCPAddr).Port == unbox(addr2, *net.TCPAddr).Port && unbox(addr1, *net.TCPAddr).IP != nil && unbox(addr2, *net.TCPAddr).IP != nil ==> (result <==> ipeq(unbox(addr1, *net.TCPAddr).IP, unbox(addr2, *net.TCPAddr).IP))
+//@   ensures [specific-udp] typeis(addr1, *net.UDPAddr) && typeis(addr2, *net.UDPAddr) && unbox(addr1, *net.UDPAddr).Port == unbox(addr2, *net.UDPAddr).Port && unbox(addr1, *net.UDPAddr).IP != nil && unbox(addr2, *net.UDPAddr).IP != nil ==> (result <==> ipeq(unbox(addr1, *net.UDPAddr).IP, unbox(addr2, *net.UDPAddr).IP))
 //@   modifies nothing
 //
 //@ func (*Honeytrap).findService
